@@ -40,29 +40,19 @@ theorem toPython_toUrl_path (s : Str) :
     ∃ u, toUrl .path (.str s) = .ok u ∧ unquote u = s ∧ toPython .path (unquote u) = some (.str s) :=
   ⟨quote pathSafe s, rfl, unquote_quote_pathSafe s, by simp [toPython, unquote_quote_pathSafe]⟩
 
-/-- **any**: an item round-trips provided it contains no `%` (`AnyConverter.to_url` does not quote:
-finding F04a is the complement together with `?` / `#`, which cut the path short). -/
-theorem toPython_toUrl_any_partial (items : List Str) (s : Str) (hmem : s ∈ items) (hp : '%' ∉ s) :
+/-- **any**: every listed item round-trips — spaces, Unicode, `?`, `#`, `%41` included: since the
+repair of F04a `AnyConverter.to_url` percent-quotes the item like every other text converter. -/
+theorem toPython_toUrl_any (items : List Str) (s : Str) (hmem : s ∈ items) :
     ∃ u, toUrl (.any items) (.str s) = .ok u ∧ unquote u = s ∧ toPython (.any items) (unquote u) = some (.str s) := by
-  refine ⟨s, ?_, unquote_noPercent s hp, by simp [toPython, unquote_noPercent s hp]⟩
+  refine ⟨quote pathSafe s, ?_, unquote_quote_pathSafe s, by simp [toPython, unquote_quote_pathSafe]⟩
   simp [toUrl, hmem]
 
-example : "a b".toList ∈ ["a b".toList, "x".toList] ∧ '%' ∉ "a b".toList := by decide
-
-/-- **F04a (negation witness).** Without the restriction the law fails on the unchanged code: the item
-`%41` is emitted as is and a server decodes it to `A`. -/
-theorem toPython_toUrl_any_full_false :
-    ¬ (∀ (items : List Str) (s : Str), s ∈ items →
-        ∃ u, toUrl (.any items) (.str s) = .ok u ∧ toPython (.any items) (unquote u) = some (.str s)) := by
-  intro H
-  obtain ⟨u, hu, hp⟩ := H ["%41".toList] "%41".toList (by simp)
-  have hu' : u = "%41".toList := by
-    have : toUrl (.any ["%41".toList]) (.str "%41".toList) = .ok "%41".toList := by simp [toUrl]
-    rw [this] at hu; cases hu; rfl
-  subst hu'
-  have : toPython (.any ["%41".toList]) (unquote "%41".toList) = some (.str "A".toList) := by decide +kernel
-  rw [this] at hp
-  cases hp
+-- non-vacuity, on the former failing inputs of F04a
+example : "a?b".toList ∈ ["a?b".toList, "%41".toList, "x#y".toList] ∧
+    toUrl (.any ["a?b".toList, "%41".toList]) (.str "%41".toList) = .ok "%2541".toList := by
+  constructor
+  · decide
+  · simp [toUrl]; decide +kernel
 
 /-- **uuid**: canonical (lower-case) UUID text round-trips. -/
 theorem toPython_toUrl_uuid (t : Str) (hlow : t.map lowerHex = t) (hp : '%' ∉ t) :
@@ -129,7 +119,7 @@ folded in), a server's percent-decoding of it is admitted DIRECTLY by the rule's
 and the groups the parts extract are exactly the decoded converter outputs `unquote(to_url(value))`, in
 order — the texts `to_python` is then applied to (`toPython_toUrl_*`).
 Hypotheses = the canonical domain: every `to_url` output is percent-quoted or free of '%'
-(`UrlsClosed`; F04a is the complement); every decoded text is accepted by its converter's regex; the
+(`UrlsClosed`: holds for string, path and any values by construction, for numbers and UUIDs because they contain no '%'); every decoded text is accepted by its converter's regex; the
 values of isolating converters contain no '/'; a path value does not leave a '/' in front of the
 rule's final slash (`PathTailOK`: paths not ending with '/'). -/
 theorem rule_build_match_partial (r : Rule) (values : List (Str × Value)) {pp : List Part} {pc : List (Str × Conv)} {u : Str}
